@@ -386,6 +386,15 @@ func (tic *TermInCommittee) HandlePrePrepare(ppm *interfaces.PreprepareMessage) 
 
 	header := ppm.Content().SignedHeader()
 
+	// a node holding a prepared certificate may leave it only through a NEW_VIEW certificate, never
+	// for a conflicting stand-alone PREPREPARE of a later view
+	if preparedView, ok := tic.getPreparedLocally(); ok && header.View() > preparedView {
+		if lockedPpm, ok := tic.storage.GetPreprepareMessage(header.BlockHeight(), preparedView); ok && !lockedPpm.Content().SignedHeader().BlockHash().Equal(header.BlockHash()) {
+			tic.logger.Info("LHMSG RECEIVED PREPREPARE IGNORE - conflicts with the block prepared in V=%d", preparedView)
+			return
+		}
+	}
+
 	ctx, err := tic.State.Contexts.For(state.NewHeightView(header.BlockHeight(), header.View()))
 	if err != nil {
 		tic.logger.Info("LHFLOW LHMSG RECEIVED PREPREPARE IGNORE - %e", err)
